@@ -144,6 +144,37 @@ LookAlikes == {
 LookSetups == [i \in 1..Cardinality(LookAlikes) |->
                  <<[NoReq EXCEPT !.puts = <<PlainPut(SortKeys(LookAlikes)[i], 1, NoExp)>>]>>]
 HasLookAlike == DOMAIN st.kv \cap LookAlikes # {}
+\* ... and hostile secondary-index declarations (OxiaDb.tla "Secondary-index declarations"): classes of p.idx a
+\* client library would not build - empty index name, names with '/' (inner, leading, trailing), the separator
+\* byte, empty secondary key, both empty, a repeated declaration, two declarations that denote the same entry
+\* key, ordinary and hostile ones mixed, and many declarations (12: four ordinary ones, each twice, hostile ones
+\* in between).  They are offered on a reduced product of the other fields from every set-up, and there are two
+\* more set-ups whose records CARRY such declarations (one of them ephemeral), so that overwriting, deleting and
+\* range-deleting such a record - deleteSecondaryIndexes on the stored declarations - is enumerated as well.
+NSl  == <<SLASH>>          \* "/"
+NiSl == <<105, SLASH>>     \* "i/"
+Sep  == <<1>>              \* the separator byte of the entry keys
+Kbc  == <<98, SLASH, 99>>  \* "b/c"
+ManyIdx == [i \in 1..12 |-> CASE i % 6 = 0 -> IE(<<>>, <<48 + i \div 6>>)
+                               [] i % 6 = 3 -> IE(<<105, SLASH, 48 + i \div 6>>, <<>>)
+                               [] OTHER     -> IE(<<105, 48 + (i % 4)>>, <<98, 48 + (i % 2)>>)]
+C13HostileIdx == { <<IE(<<>>, Kb)>>, <<IE(Kab, Kb)>>, <<IE(NSl, Kb)>>, <<IE(NiSl, Kb)>>, <<IE(Sep, Sep)>>,
+                   <<IE(Ni, <<>>)>>, <<IE(<<>>, <<>>)>>,
+                   <<IE(Ni, Kb), IE(Ni, Kb)>>,                       \* repeated
+                   <<IE(Ka, Kbc), IE(Kab, Kc)>>,                     \* both denote "__oxia/idx/a/b/c\x01<primary>"
+                   <<IE(Ni, Kb), IE(<<>>, Kc), IE(Kab, <<>>)>>,      \* ordinary and hostile mixed
+                   ManyIdx }
+C13HP == {[key |-> k, val |-> 0, exp |-> x, sess |-> se, cid |-> "", pkey |-> TRUE, deltas |-> d, idx |-> ix] :
+            k \in {<<>>, Ka, Kab, Kox}, x \in {NoExp, 0}, se \in {NoSess, 0}, d \in {<<>>, <<1>>}, ix \in C13HostileIdx}
+HostileSetups == <<
+   << [NoReq EXCEPT !.puts = <<[PlainPut(Ka, 1, NoExp) EXCEPT !.idx = <<IE(<<>>, Kb), IE(Kab, <<>>)>>],
+                               [PlainPut(Kab, 2, NoExp) EXCEPT !.idx = <<IE(Ka, Kbc), IE(Kab, Kc), IE(Ka, Kbc)>>],
+                               [PlainPut(<<>>, 3, NoExp) EXCEPT !.idx = ManyIdx]>>] >>,
+   << [NoReq EXCEPT !.puts = <<PlainPut(SessKey(0), -1, NoExp)>>],
+      [NoReq EXCEPT !.puts = <<[PlainPut(Ka, 1, NoExp) EXCEPT !.sess = 0, !.idx = <<IE(NSl, Sep), IE(<<>>, <<>>)>>],
+                               [SeqPut(Ka, <<1>>) EXCEPT !.val = 2, !.idx = <<IE(NiSl, Kb), IE(NiSl, Kb)>>]>>] >>
+>>
+HasHostileIdx == \E k \in DOMAIN st.kv : HostileDecls(st.kv[k].idx)
 C13Seq == {[SeqPut(Ka, d) EXCEPT !.pkey = pk] : d \in {<<1>>, <<2, 1>>, <<1, 1, 1>>, <<0>>}, pk \in BOOLEAN}
 C13KeyClasses == {<<>>, Ka, Kab, Kox}
 C13Deltas == {<<>>, <<0>>, <<0, 1>>, <<1>>, <<1, 1>>, <<1, 1, 1>>}
@@ -178,7 +209,9 @@ Requests ==
       [] Mode = "c12big" -> ReqsOver(BigP, BigD, BigR, MaxOps)
       [] Mode = "c16" -> {r \in ReqsOver(C16P, C16D, C16R, MaxOps) : ~SeqStateError(st, Stamp(r))}
       [] Mode = "c15" -> ReqsOver(C15P, C15D, C15R, MaxOps)
-      [] Mode = "c13" -> IF HasLookAlike THEN ReqsOver(C13Seq, {}, {}, 1) ELSE ReqsOver(C13P, C13D, C13R, MaxOps)
+      [] Mode = "c13" -> IF HasLookAlike THEN ReqsOver(C13Seq, {}, {}, 1)
+                         ELSE IF HasHostileIdx THEN ReqsOver(C13HP, C13D, C13R, MaxOps)
+                         ELSE ReqsOver(C13P \cup C13HP, C13D, C13R, MaxOps)
       [] Mode = "c06" -> {r \in ReqsOver(C06P, C06D, C06R, MaxOps) : ~SeqStateError(st, Stamp(r))}
                          \cup {[NoReq EXCEPT !.puts = <<PlainPut(SessKey(n), -1, NoExp)>>]}
       [] Mode = "c06big" -> ReqsOver(C06P \cup BigP, C06D \cup BigD, C06BigR, 1)
@@ -223,7 +256,7 @@ DoWrite(r) ==
                  /\ st' = s1 /\ n' = n + 1
 
 \* behaviours start with one of the set-up prefixes of the mode, executed as ordinary writes
-InitSetups == CASE Mode = "c13" -> Setups \o LookSetups [] Mode = "c12p" -> SetupsP [] Mode = "c12big" -> SetupsBig [] Mode \in {"c06", "c06big"} -> C06Setups
+InitSetups == CASE Mode = "c13" -> Setups \o LookSetups \o HostileSetups [] Mode = "c12p" -> SetupsP [] Mode = "c12big" -> SetupsBig [] Mode \in {"c06", "c06big"} -> C06Setups
                 [] OTHER -> << <<>> >>
 RECURSIVE RunSetup(_, _, _, _)
 RunSetup(s, i, reqs, h) ==
@@ -277,6 +310,24 @@ Total == [][ (Stepped /\ Accepted /\ ~Cur.kf) =>
                /\ \A i \in 1..Len(Res.puts) : Res.puts[i].st \in Statuses
                /\ \A i \in 1..Len(Res.dels) : Res.dels[i] \in Statuses
                /\ \A i \in 1..Len(Res.rngs) : Res.rngs[i] = "OK" ]_mvars
+
+(* C13: secondary-index declarations are neutral and always applicable (OxiaDb.tla "Secondary-index          *)
+(* declarations") - whatever a put declares, the request yields the statuses, the records and the version    *)
+(* counter it yields with every declaration removed, and after an OK put the record's entry keys are exactly *)
+(* the ones its declarations denote, one per declaration.                                                    *)
+SameRecords(s1, s2) == /\ DOMAIN s1.kv = DOMAIN s2.kv /\ s1.lastVer = s2.lastVer /\ s1.shadow = s2.shadow
+                       /\ \A k \in DOMAIN s1.kv : RecOf(s1.kv, k) = RecOf(s2.kv, k)
+DeclNeutral == [][ (Stepped /\ Accepted /\ ~Cur.kf) =>
+    LET a == Apply(st, Req, Cur.off, Cur.ts)
+        b == Apply(st, StripDecls(Req), Cur.off, Cur.ts)
+    IN a.res = b.res /\ a.nf = b.nf /\ SameRecords(a.s, b.s) ]_mvars
+DeclEntries == [][ (Stepped /\ Accepted /\ ~Cur.kf /\ Len(Req.puts) = 1 /\ Len(Req.dels) = 0 /\ Len(Req.rngs) = 0
+                    /\ Res.puts[1].st = "OK") =>
+    LET a  == Apply(st, Req, Cur.off, Cur.ts)
+        pk == IF Res.puts[1].key # <<>> THEN Res.puts[1].key ELSE Req.puts[1].key
+        w  == DeclWrites(pk, Req.puts[1].idx)
+    IN /\ {IdxKey(x.n, x.k, x.p) : x \in {y \in a.s.idx : y.p = pk}} = {w[i] : i \in 1..Len(w)}
+       /\ IndexMirror(st) => IndexMirror(a.s) ]_mvars
 
 (* C12: version ids grow strictly, shard-wide and in operation order; modification counts *)
 VersionRule == [][ (Stepped /\ Accepted /\ Plain) =>
